@@ -6,7 +6,9 @@ shims.install()
 prop, modname = sys.argv[1], sys.argv[2]
 seeds = [int(x) for x in sys.argv[3:]] or [0]
 m = importlib.import_module(modname)
-OBS = [o for o in m.obligations(prop, "thorough", 0) if getattr(o, "kind", "") == "rt"]
+import os
+TIER = os.environ.get("COLLECT_TIER", "thorough")
+OBS = [o for o in m.obligations(prop, TIER, 0) if getattr(o, "kind", "") == "rt"]
 def work(a):
     i, seed = a
     r = OBS[i].run_rt(seed)
